@@ -46,12 +46,12 @@ META = {
     "files": ["xitorch/_core/pure_function.py", "xitorch/_core/linop.py", "xitorch/_core/editable_module.py",
               "xitorch/debug/modes.py", "xitorch/grad/jachess.py", "xitorch/optimize/rootfinder.py",
               "xitorch/linalg/solve.py", "xitorch/integrate/solve_ivp.py", "xitorch/integrate/quad.py",
-              "xitorch/integrate/mcquad.py"],
+              "xitorch/integrate/mcquad.py", "xitorch/linalg/symeig.py"],
     "functions_under_contract": [
         "PureFunction.set_objparams/restore_objparams/useobjparams/disable_state_change",
         "TorchNNPureFunction._set_all_obj_params", "EditableModule.setparams", "LinearOperator.uselinopparams",
         "debug.modes.enable_debug/disable_debug/set_debug_mode", "_Jac._mv/_rmv",
-        "forward/backward of _RootFinder, solve_torchfcn, _SolveIVP (forward), _Quadrature, _MCQuad (forward)",
+        "forward/backward of _RootFinder, solve_torchfcn, symeig_torchfcn, _SolveIVP, _Quadrature, _MCQuad (backward in both grad modes)",
     ],
     "trusted_base": ["stub torch.nn.Module (torch's __setattr__/__delattr__ registration rules)",
                      "built-in iterative methods do not substitute parameters themselves (replaced by an N-call stub)",
@@ -615,7 +615,193 @@ def unit_jac():
     return _run_unit("jac", run)
 
 
+def unit_integrator_backwards():
+    """backward passes of solve_ivp, quad and mcquad: the user function raises at every evaluation, in both grad modes"""
+    import importlib
+    iv = importlib.import_module("xitorch.integrate.solve_ivp")
+    qd = importlib.import_module("xitorch.integrate.quad")
+    mq = importlib.import_module("xitorch.integrate.mcquad")
+    from pydv.seq import pv_len
+    from props.C08 import Rows, _parts
+    for m in (iv, qd, mq):
+        core.inject_builtins(m)
+        m.__dict__["len"] = pv_len
+
+    def run():
+        c = ctx()
+        from xitorch._core.pure_function import get_pure_function
+        for kind in ("em", "nn"):
+            for grad_mode in (False, True):
+                gm = "recorded" if grad_mode else "plain"
+
+                def mode():
+                    return st.enable_grad() if grad_mode else st.no_grad()
+
+                # ---- solve_ivp ---------------------------------------------------------------------------------
+                def build(kind=kind):
+                    cnt = Counter()
+                    obj, m = _user_objects(kind, cnt, lambda ts, t, y, p: _vec_of(y, ts[0]))
+                    return {"counter": cnt, "obj": obj, "m": m, "pfn": get_pure_function(m)}
+
+                def action(env, mode=mode):
+                    pfn = env["pfn"]
+                    trows = [st.scalar("t%d" % k) for k in range(3)]
+                    ts = Rows("ts", trows)
+                    y0 = st.vec("y0", (2,), (0,), requires_grad=True)
+                    p = st.vec("p", (2,), (0,), requires_grad=True)
+                    yrows = [st.vec("y@t%d" % k, (2,), (0,)) for k in range(3)]
+                    fctx = st.FunctionCtx()
+                    saved = env["counter"].fault_at
+                    env["counter"].fault_at = None          # the forward pass is fault-free here (swept in `integrators`)
+                    with st.no_grad():
+                        iv._SolveIVP.forward(fctx, pfn, ts, {"method": lambda *a, **k: Rows("yt", yrows)}, {}, 1, y0, p, *pfn.objparams())
+                    env["counter"].calls = 0
+                    env["counter"].fault_at = saved
+
+                    def apply_contract(pf, tseg, fwd, bck, nparams, s0, *tparams):
+                        comps0 = _parts(s0)
+                        for _ in range(2):
+                            pf(tseg[0], s0, *tparams)
+                        return st.cat([st.stack([c0, c0]) for c0 in comps0], dim=-1)
+                    g = Rows("g", [st.vec("g%d" % k, (2,), (0,)) for k in range(3)])
+                    with kit.patched(iv._SolveIVP, "apply", staticmethod(apply_contract)):
+                        with mode():
+                            iv._SolveIVP.backward(fctx, g)
+
+                def observe(env):
+                    return (H.snapshot_module(env["obj"]), len(env["pfn"]._restore_stack), [id(x) for x in env["pfn"].objparams()])
+                sweep("_SolveIVP.backward[%s,%s]" % (kind, gm), build, action, observe, c, expect_calls_min=4)
+
+                # ---- quad ------------------------------------------------------------------------------------------
+                def build_q(kind=kind):
+                    cnt = Counter()
+                    obj, m = _user_objects(kind, cnt, lambda ts, x, p: _vec_of(st.vec("fx", (2,), (0,)), ts[0]))
+                    return {"counter": cnt, "obj": obj, "m": m, "pfn": get_pure_function(m)}
+
+                def action_q(env, mode=mode):
+                    pfn = env["pfn"]
+                    p = st.vec("p", (2,), (0,), requires_grad=True)
+                    xl = st.Tensor("sc", st.Sc(z3.Real("xl")), (), st.float64, requires_grad=True, name="xl")
+                    xu = st.Tensor("sc", st.Sc(z3.Real("xu")), (), st.float64, requires_grad=True, name="xu")
+                    fctx = st.FunctionCtx()
+                    saved = env["counter"].fault_at
+                    env["counter"].fault_at = None
+                    with kit.patched(qd, "leggauss", lambda *a, **k: st.vec("integral", (2,), (0,))):
+                        with st.no_grad():
+                            qd._Quadrature.forward(fctx, pfn, xl, xu, {"method": "leggauss"}, {}, 1, st.float64, st._cpu, p, *pfn.objparams())
+                    env["counter"].calls = 0
+                    env["counter"].fault_at = saved
+
+                    def quad_contract(fcn, xl_, xu_, params=[], bck_options={}, method=None, **opts):
+                        r = None
+                        for _ in range(2):
+                            r = fcn(st.scalar("xnode"), *params)
+                        return r
+                    with kit.patched(qd, "quad", quad_contract):
+                        with mode():
+                            qd._Quadrature.backward(fctx, st.vec("g", (2,), (0,)))
+                sweep("_Quadrature.backward[%s,%s]" % (kind, gm), build_q, action_q, observe, c, expect_calls_min=4)
+
+                # ---- mcquad ------------------------------------------------------------------------------------------
+                def build_m(kind=kind):
+                    cnt = Counter()
+                    obj, m = _user_objects(kind, cnt, lambda ts, x, p: _vec_of(st.vec("fx", (2,), (0,)), ts[0]))
+                    obj2, m2 = _user_objects("em" if kind == "nn" else "nn", cnt, lambda ts, x, p: _scalar_of(x, ts[0]))
+                    return {"counter": cnt, "obj": obj, "obj2": obj2, "m": m, "m2": m2, "pfn": get_pure_function(m), "pfn2": get_pure_function(m2)}
+
+                def action_m(env, mode=mode):
+                    pf, pl = env["pfn"], env["pfn2"]
+                    fp = st.vec("fp", (2,), (0,), requires_grad=True)
+                    pp = st.vec("pp", (2,), (0,), requires_grad=True)
+                    xs, ws = st.vec("xs", (3, 2), (1,)), st.scalar("w", (3,))
+                    fctx = st.FunctionCtx()
+                    saved = env["counter"].fault_at
+                    env["counter"].fault_at = None
+                    with kit.patched(mq, "_integrate", lambda *a: st.vec("epf", (2,), (0,))):
+                        with st.no_grad():
+                            mq._MCQuad.forward(fctx, pf, pl, st.vec("x0", (2,), (0,)), None, None, lambda *a, **k: (xs, ws), {}, {}, 1,
+                                               len(pf.objparams()), 1, fp, *pf.objparams(), pp, *pl.objparams())
+                    env["counter"].calls = 0
+                    env["counter"].fault_at = saved
+
+                    def mcquad_contract(ffcn, log_pfcn, x0, xsamples, wsamples, fparams, pparams, method, bck_options, **fwd_options):
+                        vals = None
+                        for _ in range(2):
+                            vals = ffcn(st.vec("xsample", (2,), (0,)), *fparams)
+                        return vals
+                    with kit.patched(mq, "_mcquad", mcquad_contract):
+                        with mode():
+                            mq._MCQuad.backward(fctx, st.vec("g", (2,), (0,)))
+
+                def observe_m(env):
+                    return (H.snapshot_module(env["obj"]), H.snapshot_module(env["obj2"]), len(env["pfn"]._restore_stack), len(env["pfn2"]._restore_stack))
+                sweep("_MCQuad.backward[%s,%s]" % (kind, gm), build_m, action_m, observe_m, c, expect_calls_min=2)
+    return _run_unit("integrator_backwards", run)
+
+
+def unit_symeig():
+    """symeig with parametrised operators: a product of A or M raises at every call, forward and backward"""
+    import importlib
+    se = importlib.import_module("xitorch.linalg.symeig")
+    core.inject_builtins(se)
+
+    def run():
+        c = ctx()
+        for shared in (False, True):
+            def build(shared=shared):
+                cnt = Counter()
+                A, Op = _faulty_linop(cnt, shared)
+                M, _ = _faulty_linop(cnt, False)
+                A._is_hermitian = True
+                M._is_hermitian = True
+                return {"counter": cnt, "A": A, "M": M}
+
+            def method(A, neig, mode, M=None, **kw):
+                X = st.vec("X", (3, 2), (0,))
+                for _ in range(3):
+                    A.mm(X)
+                if M is not None:
+                    M.mm(X)
+                return st.scalar("e", (2,)), X
+
+            def action_fwd(env):
+                return se.symeig(env["A"], 2, "lowest", M=env["M"], method=method)
+
+            def observe(env):
+                return (_linop_snapshot(env["A"]), _linop_snapshot(env["M"]))
+            sweep("symeig.forward[shared=%s]" % shared, build, action_fwd, observe, c, expect_calls_min=4)
+
+            for grad_mode in (False, True):
+                def action_bwd(env, grad_mode=grad_mode):
+                    A, M = env["A"], env["M"]
+                    params, mparams = list(A.getlinopparams()), list(M.getlinopparams())
+                    E, X = st.scalar("e", (2,)), st.vec("X", (3, 2), (0,))
+                    fctx = st.FunctionCtx()
+                    fctx.A, fctx.M, fctx.na = A, M, len(params)
+                    fctx.bck_config = {}
+                    fctx.bck_alg_config = {"degen_atol": 0.0, "degen_rtol": 0.0}
+                    fctx.save_for_backward(E, X, *params, *mparams)
+
+                    def solve_contract(A_, B_, E_=None, M_=None, **kw):
+                        A_.mm(B_)
+                        if M_ is not None:
+                            M_.mm(B_)
+                        return st.vec("Y", B_.shape, (0,))
+                    ge, gx = st.scalar("ge", (2,)), st.vec("gx", (3, 2), (0,))
+                    with kit.patched(se, "solve", solve_contract):
+                        with (st.enable_grad() if grad_mode else st.no_grad()):
+                            try:
+                                se.symeig_torchfcn.backward(fctx, ge, gx)
+                            except (OutOfSubset, RuntimeError) as ex:
+                                if isinstance(ex, UserFault):
+                                    raise
+                sweep("symeig.backward[shared=%s,%s]" % (shared, "recorded" if grad_mode else "plain"), build, action_bwd, observe, c,
+                      expect_calls_min=3)
+    return _run_unit("symeig", run)
+
+
 def units(tier):
-    return [("useobjparams", unit_useobjparams), ("debug_modes", unit_debug_modes), ("uselinopparams", unit_uselinopparams),
+    return [("integrator_backwards", unit_integrator_backwards), ("symeig", unit_symeig),
+            ("useobjparams", unit_useobjparams), ("debug_modes", unit_debug_modes), ("uselinopparams", unit_uselinopparams),
             ("rootfinder_family", unit_rootfinder_family), ("solve", unit_solve), ("integrators", unit_integrators),
             ("jac", unit_jac)]
